@@ -343,6 +343,25 @@ pub fn build_cases(tier: &str, seed: u64, pools: &Pools) -> Vec<Case> {
             push_all_layers(&mut cases, p, &key, format!("{}{}.{}", hdr, b, b), Some("x".into()), None, "header+odd-body+odd-footer");
             push_all_layers(&mut cases, p, &key, format!("{}{}.{}.{}", hdr, b, b, b), None, None, "header+5-segments");
         }
+        // (4b) one foreign character ('=', '+', '/', '%', blank, NUL, a multi-byte character ...) SUBSTITUTED or INSERTED at
+        //      every position of short bodies and at the start / middle / end of longer ones (padding that is not at the end,
+        //      the other alphabet's characters in the middle: whatever a "normalise and retry" step does with them)
+        for n in [1usize, 2, 3, 4, 5, 8, 9, 12, 43, 44, 64, 86, 200] {
+            let positions: Vec<usize> = if n <= 12 { (0..n).collect() } else { vec![0, 1, n / 2, n - 2, n - 1] };
+            for &at in &positions {
+                for ch in ["=", "==", "+", "/", "%", " ", "\0", "\u{e9}", "~", "=+"] {
+                    let sub = format!("{}{}{}", "A".repeat(at), ch, "A".repeat(n - 1 - at));
+                    let ins = format!("{}{}{}", "B".repeat(at), ch, "B".repeat(n - at));
+                    for b in [sub, ins] {
+                        push_all_layers(&mut cases, p, &key, format!("{}{}", hdr, b), None, None, "header+body-with-one-foreign-character");
+                        if at % 2 == 0 {
+                            push_all_layers(&mut cases, p, &key, format!("{}{}.{}", hdr, b, footer_b64), Some(footer_txt.to_string()), None, "header+body-with-one-foreign-character+matching-footer");
+                            push_all_layers(&mut cases, p, &key, format!("{}AAAA.{}", hdr, b), Some("x".into()), None, "header+footer-segment-with-one-foreign-character");
+                        }
+                    }
+                }
+            }
+        }
         // (5) generic hostile strings to this protocol's entry points
         let mut generic: Vec<String> = vec![
             "".into(), ".".into(), "..".into(), "...".into(), "....".into(), ".....".into(), "v".into(), "v4".into(), "v4.".into(), "v4.local".into(), "v4.local.".into(),
@@ -482,4 +501,4 @@ pub fn replay(case: &Value) -> Report {
     r
 }
 
-pub const RULE: &str = "cases = for each of the 8 protocols x 4 entry points (core, generic, batteries new(), batteries default()): the correct header followed by base64url of EVERY decoded length 0..=400 (thorough 0..=2000) with zero/random/authentic-prefix fill, with and without a matching footer segment; random larger payloads; every character prefix and several extensions of authentic tokens; multi-byte characters substituted and inserted at each of the first 14 positions (so that byte offsets near the header length are not character boundaries); invalid/padded/non-alphabet base64; 0-6 segment strings of arbitrary Unicode; foreign and relabelled tokens; large inputs; expected footers/assertions of 64..70000 bytes with 3- and 4-segment input; AUTHENTIC tokens carrying hostile payloads (non-JSON, non-object, extreme/malformed exp/nbf/iat incl. the edges of year 0 and 9999 with offsets, leap seconds, huge numbers, nesting to depth 5000, 100 KB strings, 2000 members), each also through upper-layer parsers configured with check_claim / validate_claim / extend_validation_claims / extend_check_claims for present and absent keys; garbage public keys; and Key::<N>::try_from(&str) for N in {1,2,24,32,48,49,56,64} on hex strings of every length 0..=200 plus non-hex text. All with VALID key material so that parsing proceeds past key handling. Oracle: any Ok/Err is fine, a panic or process death is the violation. distinct_nontrivial = distinct (entry point, case class, outcome variant) tuples whose input got past the segment-count and header checks";
+pub const RULE: &str = "cases = for each of the 8 protocols x 4 entry points (core, generic, batteries new(), batteries default()): the correct header followed by base64url of EVERY decoded length 0..=400 (thorough 0..=2000) with zero/random/authentic-prefix fill, with and without a matching footer segment; random larger payloads; every character prefix and several extensions of authentic tokens; multi-byte characters substituted and inserted at each of the first 14 positions (so that byte offsets near the header length are not character boundaries); invalid/padded/non-alphabet base64, incl. one foreign character ('=', '+', '/', '%', blank, NUL, multi-byte) substituted or inserted at every position of short payload / footer segments and at the ends and middle of longer ones; 0-6 segment strings of arbitrary Unicode; foreign and relabelled tokens; large inputs; expected footers/assertions of 64..70000 bytes with 3- and 4-segment input; AUTHENTIC tokens carrying hostile payloads (non-JSON, non-object, extreme/malformed exp/nbf/iat incl. the edges of year 0 and 9999 with offsets, leap seconds, huge numbers, nesting to depth 5000, 100 KB strings, 2000 members), each also through upper-layer parsers configured with check_claim / validate_claim / extend_validation_claims / extend_check_claims for present and absent keys; garbage public keys; and Key::<N>::try_from(&str) for N in {1,2,24,32,48,49,56,64} on hex strings of every length 0..=200 plus non-hex text. All with VALID key material so that parsing proceeds past key handling. Oracle: any Ok/Err is fine, a panic or process death is the violation. distinct_nontrivial = distinct (entry point, case class, outcome variant) tuples whose input got past the segment-count and header checks";
